@@ -127,37 +127,21 @@ type Commitment struct {
 	C2 []*paillier.Ciphertext
 }
 
-type commitmentDTO struct {
-	C1 []*paillier.Ciphertext
-	C2 []*paillier.Ciphertext
-}
-
-// UnmarshalCBOR deserialises a commitment and rejects missing ciphertexts.
-func (c *Commitment) UnmarshalCBOR(data []byte) error {
-	dto, err := serde.UnmarshalCBOR[*commitmentDTO](data)
-	if err != nil {
-		return errs.Wrap(err).WithMessage("cannot unmarshal commitment")
-	}
-	if dto == nil {
-		return proofs.ErrInvalidArgument.WithMessage("commitment is nil")
-	}
-	for _, ct := range slices.Concat(dto.C1, dto.C2) {
-		if ct == nil {
-			return proofs.ErrInvalidArgument.WithMessage("commitment contains a nil ciphertext")
-		}
-	}
-	c.C1, c.C2 = dto.C1, dto.C2
-	return nil
-}
-
 // Bytes serialises the commitment for transcript binding.
 func (c *Commitment) Bytes() []byte {
 	if c == nil {
 		return nil
 	}
 
-	c1Bytes := sliceutils.Map(c.C1, func(c1 *paillier.Ciphertext) []byte { return c1.Bytes() })
-	c2Bytes := sliceutils.Map(c.C2, func(c2 *paillier.Ciphertext) []byte { return c2.Bytes() })
+	// a decoded commitment may hold nil ciphertexts (callers validate at use, Verify rejects them): bind them as empty strings
+	ciphertextBytes := func(ct *paillier.Ciphertext) []byte {
+		if ct == nil {
+			return nil
+		}
+		return ct.Bytes()
+	}
+	c1Bytes := sliceutils.Map(c.C1, ciphertextBytes)
+	c2Bytes := sliceutils.Map(c.C2, ciphertextBytes)
 
 	out := []byte{}
 	out = sliceutils.AppendLengthPrefixedSlices(out, c1Bytes...)
@@ -419,6 +403,9 @@ func (p *Protocol[EK]) Verify(statement *Statement, commitment *Commitment, chal
 	}
 	if len(commitment.C1) != int(p.t) || len(commitment.C2) != int(p.t) {
 		return proofs.ErrFailed.WithMessage("inconsistent input")
+	}
+	if slices.Contains(commitment.C1, nil) || slices.Contains(commitment.C2, nil) {
+		return proofs.ErrFailed.WithMessage("commitment contains a nil ciphertext")
 	}
 
 	l1 := len(response.W1)
